@@ -540,7 +540,7 @@ impl Prop for C18 {
         "C18"
     }
     fn phases(&self, tier: Tier) -> Vec<PhaseSpec> {
-        vec![ph("conversion-table", tier.pick(2_000, 100_000)), ph("number-operator-table", tier.pick(2_000, 100_000))]
+        vec![ph("conversion-table", tier.pick(6_000, 200_000)), ph("number-operator-table", tier.pick(6_000, 200_000))]
     }
     fn exhaustive(&self, _tier: Tier) -> bool {
         false
